@@ -1,7 +1,750 @@
-import Netpol.Model.Engine
-import Netpol.Model.Diff
-import Netpol.Model.Sort
+import Netpol.Proofs.DiffLayer
+
+/-! C04: the diff of two connectivity reports is pointwise exact.
+
+`Diff.compute` (model of `computeDiffFromConnlistResults`, `pkg/netpol/diff/diff.go`) refines the
+two reports to common disjoint IP blocks, builds the map keyed by `src;dst`, merges the IP ends
+again per group (other peer; connection 1; connection 2) and classifies. A report is a list of
+`P2P` (source peer, destination peer, exported connection view); `diffReports` is `compute` on
+such lists (`compute_eq`). A *point* is a pair of workload names, or a workload name and one
+external address (in one of the two directions, `b`: the address is the source). What a report
+holds for a point is `lookup` (two names) / `DiffLayer.lookupIP` (a name and an address: the entry
+whose IP range contains the address). `expected` is the specified entry of a point: none when
+neither report holds a connection, otherwise unchanged / changed / added / removed with the two
+connection strings and the new/lost flags.
+
+Theorems.
+* A `diff_pointwise_wl` (+ `diff_wl_mem_iff`, `diff_wl_unique`): the entries of the diff named by two
+  workload names are exactly `expected`.
+* B `diff_self_unchanged`, `compute_self_unchanged`: the diff of a report with itself has only
+  `unchanged` entries (no hypothesis, IP entries included).
+* C `lookup_refine`, `refines_left/right`, `refined_cover`: refinement is lossless.
+* D `mergeRanges_den`, `mergeRanges_canon`, `mergeRanges_owner_unique`; the merged map at a point is
+  `DiffLayer.merge_point` / `DiffLayer.point_ip`.
+* E `diff_pointwise_ip`: for a workload and an address, the diff has no entry named by the workload
+  and a range containing the address when neither report holds a connection; otherwise exactly
+  one such range `r` carries an entry, that entry is `expected`, and `r` is the maximal range around
+  the address on which the pair of connection strings is constant.
+  `diff_entries_shape`: the diff has no other entries than those of points.
+* F `diff_swap_wl`, `diff_swap_ip`: point by point, `diff(R2,R1)` is `diff(R1,R2)` with added/removed
+  and the two sides exchanged (`swapEntry`).
+
+Hypotheses.
+* `NoSemi`: names contain no semicolon (the map key is the string `src;dst`; true of Kubernetes
+  names; proved for IP-range names and for connection strings).
+* `NotIP`: workload names are not IP-range strings (proved for the names the analyzer builds:
+  `Structure.workloadName_ne_ipRange`).
+* `DiffLayer.ReportWF` (for the points with an address): what property C05 guarantees of a report —
+  no two entries with the same names, no IP–IP entries, IP peers are valid ranges, the ranges of
+  one report are pairwise disjoint, distinct workloads have distinct names.
+* `DiffLayer.ConnStrInj` (for the points with an address): within a report the connection string
+  determines the exported connection view. Needed because the code groups the refined entries by
+  the connection *strings* and lets the first entry of a group stand for all of them; true of the
+  canonical views the analyzer exports (not proved here). -/
 namespace Netpol.Properties.C04
-open Netpol
+open Netpol Netpol.Engine Netpol.Diff Netpol.DiffLayer
+
+deriving instance DecidableEq for Netpol.Diff.DEntry
+
+/-- the diff of two reports as `compute` does it: refinement to the common disjoint blocks, then
+`diffLists` -/
+def diffReports (R1 R2 : List P2P) (peers1 peers2 : List String) : List DEntry :=
+  let dis := disjointBlocks (ipBlocksOf R1) (ipBlocksOf R2)
+  diffLists (refine R1 dis) (refine R2 dis) peers1 peers2
+
+/-- the workload names of a peer list -/
+def peerNames (l : List LPeer) : List String :=
+  l.filterMap fun p => match p with | .wl n _ => some n | _ => none
+
+theorem compute_eq (e1 e2 : List Entry) (peers1 peers2 : List LPeer) :
+    compute e1 e2 peers1 peers2 =
+      diffReports (e1.map ofEntry) (e2.map ofEntry) (peerNames peers1) (peerNames peers2) := rfl
+
+/-- what a report holds for a pair of names -/
+def lookup (R : List P2P) (s d : String) : Option P2P :=
+  R.find? fun p => p.src.str == s && p.dst.str == d
+
+/-- the specified diff entry of a point with names `s`, `d`, given what the two reports hold -/
+def expected (s d : String) (o1 o2 : Option P2P) (peers1 peers2 : List String) : Option DEntry :=
+  match o1, o2 with
+  | none, none => none
+  | some a, some b =>
+    some ⟨if a.all = b.all ∧ a.ports = b.ports then "unchanged" else "changed", s, d,
+      a.connStr, b.connStr, false, false⟩
+  | some a, none =>
+    some ⟨"removed", s, d, a.connStr, noConns, isWorkloadAbsent a.src peers2, isWorkloadAbsent a.dst peers2⟩
+  | none, some b =>
+    some ⟨"added", s, d, noConns, b.connStr, isWorkloadAbsent b.src peers1, isWorkloadAbsent b.dst peers1⟩
+
+/-- the new/lost flag of a workload: its name is absent from the other report's peer list (the
+ingress-controller pseudo peer is never flagged) -/
+theorem isWorkloadAbsent_wl (n : String) (pod : Pod) (names : List String)
+    (h : ¬ (pod.fake = true ∧ pod.name = "ingress-controller")) :
+    isWorkloadAbsent (.wl n pod) names = !names.contains n := by
+  unfold isWorkloadAbsent
+  have : (pod.fake && pod.name == "ingress-controller") = false := by
+    rw [Bool.eq_false_iff]
+    simpa using h
+  simp [this]
+
+theorem isWorkloadAbsent_ip (r : Iv) (names : List String) : isWorkloadAbsent (.ip r) names = false := rfl
+
+/-! ## A. pairs of workloads -/
+
+/-- the names of the entries of a report are pairwise distinct -/
+def NamesNodup (R : List P2P) : Prop := (R.map fun p => (p.src.str, p.dst.str)).Nodup
+
+theorem filter_key_lookup {R : List P2P} (hnd : NamesNodup R) (hns : ∀ p ∈ R, NoSemi p.src.str)
+    {s d : String} (hs : NoSemi s) :
+    R.filter (fun c => c.key == pkey s d) = (lookup R s d).toList := by
+  have hcongr : ∀ p ∈ R, (p.key == pkey s d) = (p.src.str == s && p.dst.str == d) := by
+    intro p hp
+    rw [Bool.eq_iff_iff]
+    simp only [Bool.and_eq_true, beq_iff_eq, key_eq]
+    constructor
+    · intro h; exact pkey_inj (hns p hp) hs h
+    · rintro ⟨rfl, rfl⟩; rfl
+  rw [List.filter_congr hcongr]
+  unfold lookup
+  apply filter_unique_of_pairwise
+  unfold NamesNodup at hnd
+  rw [List.nodup_iff_pairwise_ne, List.pairwise_map] at hnd
+  refine hnd.imp ?_
+  intro a b hab ⟨ha, hb⟩
+  simp only [Bool.and_eq_true, beq_iff_eq] at ha hb
+  apply hab
+  rw [ha.1, ha.2, hb.1, hb.2]
+
+/-- **Workload–workload points.** For two workload names `s`, `d`: the entries of the diff with
+these names are exactly the specified entry — none when neither report holds a connection for
+the pair, otherwise one entry, `unchanged` / `changed` / `added` / `removed`, carrying the two
+connection strings and the new/lost flags. -/
+theorem diff_pointwise_wl {R1 R2 : List P2P} (peers1 peers2 : List String) {s d : String}
+    (hnd1 : NamesNodup R1) (hnd2 : NamesNodup R2)
+    (hns1 : ∀ p ∈ R1, NoSemi p.src.str) (hns2 : ∀ p ∈ R2, NoSemi p.src.str)
+    (hs : NoSemi s) (hsip : NotIP s) (hdip : NotIP d) :
+    (diffReports R1 R2 peers1 peers2).filter (fun e => e.src == s && e.dst == d) =
+      (expected s d (lookup R1 s d) (lookup R2 s d) peers1 peers2).toList := by
+  unfold diffReports
+  simp only
+  have h1 := (refine_filter_wl (dis := disjointBlocks (ipBlocksOf R1) (ipBlocksOf R2)) hns1 hs hsip hdip).trans
+    (filter_key_lookup hnd1 hns1 hs)
+  have h2 := (refine_filter_wl (dis := disjointBlocks (ipBlocksOf R1) (ipBlocksOf R2)) hns2 hs hsip hdip).trans
+    (filter_key_lookup hnd2 hns2 hs)
+  rw [diffLists_filter_wl peers1 peers2 (noSemi_refine hns1) (noSemi_refine hns2) hs hsip hdip h1 h2]
+  congr 1
+  have hl : ∀ (R : List P2P) a, lookup R s d = some a → a.src.str = s ∧ a.dst.str = d := by
+    intro R a ha
+    have := List.find?_some ha
+    simpa using this
+  cases ho1 : lookup R1 s d with
+  | none =>
+    cases ho2 : lookup R2 s d with
+    | none => rfl
+    | some b =>
+      obtain ⟨e1, e2⟩ := hl _ _ ho2
+      simp [mkPair, classify, expected, e1, e2]
+  | some a =>
+    obtain ⟨e1, e2⟩ := hl _ _ ho1
+    cases ho2 : lookup R2 s d with
+    | none => simp [mkPair, classify, expected, e1, e2]
+    | some b =>
+      simp only [mkPair, classify, expected, e1, e2, Option.bind_some, Option.some.injEq]
+      congr 1
+      by_cases hab : a.all = b.all ∧ a.ports = b.ports
+      · simp [hab.1, hab.2]
+      · rw [if_neg hab]
+        have : (a.all == b.all && a.ports == b.ports) = false := by
+          rw [Bool.eq_false_iff]
+          simpa using hab
+        simp [this]
+
+/-- consequence: the diff has an entry for the pair iff one of the reports holds a connection -/
+theorem diff_wl_mem_iff {R1 R2 : List P2P} (peers1 peers2 : List String) {s d : String}
+    (hnd1 : NamesNodup R1) (hnd2 : NamesNodup R2)
+    (hns1 : ∀ p ∈ R1, NoSemi p.src.str) (hns2 : ∀ p ∈ R2, NoSemi p.src.str)
+    (hs : NoSemi s) (hsip : NotIP s) (hdip : NotIP d) :
+    (∃ e ∈ diffReports R1 R2 peers1 peers2, e.src = s ∧ e.dst = d) ↔
+      ((lookup R1 s d).isSome ∨ (lookup R2 s d).isSome) := by
+  have h := diff_pointwise_wl peers1 peers2 hnd1 hnd2 hns1 hns2 hs hsip hdip
+  have hiff : (∃ e ∈ diffReports R1 R2 peers1 peers2, e.src = s ∧ e.dst = d) ↔
+      (diffReports R1 R2 peers1 peers2).filter (fun e => e.src == s && e.dst == d) ≠ [] := by
+    rw [Ne, List.filter_eq_nil_iff]
+    simp
+  rw [hiff, h]
+  cases lookup R1 s d <;> cases lookup R2 s d <;> simp [expected]
+
+/-- consequence: at most one entry per pair of workload names -/
+theorem diff_wl_unique {R1 R2 : List P2P} (peers1 peers2 : List String) {s d : String}
+    (hnd1 : NamesNodup R1) (hnd2 : NamesNodup R2)
+    (hns1 : ∀ p ∈ R1, NoSemi p.src.str) (hns2 : ∀ p ∈ R2, NoSemi p.src.str)
+    (hs : NoSemi s) (hsip : NotIP s) (hdip : NotIP d) :
+    ((diffReports R1 R2 peers1 peers2).filter (fun e => e.src == s && e.dst == d)).length ≤ 1 := by
+  rw [diff_pointwise_wl peers1 peers2 hnd1 hnd2 hns1 hns2 hs hsip hdip]
+  cases expected s d (lookup R1 s d) (lookup R2 s d) peers1 peers2 <;> simp
+
+/-- the hypotheses of `diff_pointwise_wl` follow from `ReportWF` -/
+theorem diff_pointwise_wl_of_wf {R1 R2 : List P2P} (peers1 peers2 : List String) {s d : String}
+    (h1 : ReportWF R1) (h2 : ReportWF R2) (hs : NoSemi s) (hsip : NotIP s) (hdip : NotIP d) :
+    (diffReports R1 R2 peers1 peers2).filter (fun e => e.src == s && e.dst == d) =
+      (expected s d (lookup R1 s d) (lookup R2 s d) peers1 peers2).toList :=
+  diff_pointwise_wl peers1 peers2 h1.nodup h2.nodup
+    (fun p hp => by
+      cases hs' : p.src with
+      | wl n pod => exact (h1.names p hp n pod (Or.inl hs')).1
+      | ip r => exact noSemi_ipRange r)
+    (fun p hp => by
+      cases hs' : p.src with
+      | wl n pod => exact (h2.names p hp n pod (Or.inl hs')).1
+      | ip r => exact noSemi_ipRange r) hs hsip hdip
+
+/-- the same for `compute` on two lists of report entries -/
+theorem compute_pointwise_wl (e1 e2 : List Entry) (peers1 peers2 : List LPeer) {s d : String}
+    (h1 : ReportWF (e1.map ofEntry)) (h2 : ReportWF (e2.map ofEntry)) (hs : NoSemi s)
+    (hsip : NotIP s) (hdip : NotIP d) :
+    (compute e1 e2 peers1 peers2).filter (fun e => e.src == s && e.dst == d) =
+      (expected s d (lookup (e1.map ofEntry) s d) (lookup (e2.map ofEntry) s d)
+        (peerNames peers1) (peerNames peers2)).toList := by
+  rw [compute_eq]
+  exact diff_pointwise_wl_of_wf _ _ h1 h2 hs hsip hdip
+
+/-! ## B. the diff of a report with itself -/
+
+/-- every entry of the diff of a report with itself is `unchanged` (no hypothesis on the report;
+IP entries included) -/
+theorem diff_self_unchanged (R : List P2P) (peers1 peers2 : List String) :
+    ∀ e ∈ diffReports R R peers1 peers2, e.typ = "unchanged" :=
+  diffLists_self _ peers1 peers2
+
+theorem compute_self_unchanged (es : List Entry) (peers1 peers2 : List LPeer) :
+    ∀ e ∈ compute es es peers1 peers2, e.typ = "unchanged" := by
+  rw [compute_eq]
+  exact diff_self_unchanged _ _ _
+
+/-! ## C. refinement is lossless -/
+
+/-- what the refined report holds for a workload and an address is what the report holds, the IP
+end replaced by the refined block `d0` containing the address -/
+theorem lookup_refine {R : List P2P} (hR : ReportWF R) {dis : List Iv} (hdis : RefinesR dis R)
+    (b : Bool) {w : String} (hwns : NoSemi w) (hwip : NotIP w) {a : Int} {d0 : Iv} (hd0 : d0 ∈ dis)
+    (ha : d0.mem a) :
+    lookupIP b (refine R dis) w a = (lookupIP b R w a).map (mkIP b d0) := by
+  have hent := entOK_refine hR dis
+  have hcongr : ∀ y ∈ refine R dis, matchIP b w a y = (y.key == dkey b w d0) := by
+    intro y hy
+    rw [Bool.eq_iff_iff, matchIP_iff, beq_iff_eq]
+    constructor
+    · rintro ⟨ho, r, hr, hra⟩
+      have hrd : r ∈ dis := (hent y hy).ip r (ipEnd_cases hr)
+      have : r = d0 := hdis.seg.unique r hrd d0 hd0 a hra ha
+      subst this
+      rw [key_of_ipEnd hr, ho]
+    · intro hk
+      obtain ⟨e1, e2⟩ := shape_of_key hdis.seg (hent y hy) hwns (hdis.seg.valid d0 hd0) hk
+      exact ⟨e1, d0, e2, ha⟩
+  show (refine R dis).find? (matchIP b w a) = _
+  rw [← List.head?_filter, List.filter_congr hcongr, refine_filter_ip hR hdis b hwns hwip hd0 ha]
+  cases lookupIP b R w a <;> rfl
+
+/-- the blocks of `compute` refine both reports: valid, pairwise disjoint, every block of a report
+is the union of the refined blocks inside it -/
+theorem refines_left {R1 R2 : List P2P} (h1 : ReportWF R1) (h2 : ReportWF R2) :
+    RefinesR (disOf R1 R2) R1 := refinesR_left h1 h2
+
+theorem refines_right {R1 R2 : List P2P} (h1 : ReportWF R1) (h2 : ReportWF R2) :
+    RefinesR (disOf R1 R2) R2 := refinesR_right h1 h2
+
+/-- every address of a block of one of the reports lies in a refined block -/
+theorem refined_cover {R1 R2 : List P2P} {k : Iv} (hk : k ∈ ipBlocksOf R1 ++ ipBlocksOf R2) {x : Int}
+    (hx : k.mem x) : ∃ d ∈ disOf R1 R2, d.mem x := disjointBlocks_cover _ _ hk hx
+
+/-! ## D. merging -/
+
+/-- `mergeRanges` denotes the union of the ranges -/
+theorem mergeRanges_den (l : List Iv) (x : Int) :
+    CSet.memL (mergeRanges l) x ↔ ∃ r ∈ l, r.mem x := mem_mergeRanges l x
+
+/-- and is canonical: sorted, pairwise disjoint, non-touching, non-empty ranges -/
+theorem mergeRanges_canon (l : List Iv) : CSet.Canon (mergeRanges l) := canon_mergeRanges l
+
+/-- so an address lies in at most one merged range -/
+theorem mergeRanges_owner_unique {l : List Iv} {r r' : Iv} (hr : r ∈ mergeRanges l)
+    (hr' : r' ∈ mergeRanges l) {x : Int} (hx : r.mem x) (hx' : r'.mem x) : r = r' :=
+  mergeRanges_unique hr hr' hx hx'
+
+/-! ## E. workload–address points -/
+
+/-- the names of the entry for workload `w` and range `r`; `b`: the range is the source -/
+def namesIP (b : Bool) (w : String) (r : Iv) : String × String :=
+  if b then ((LPeer.ip r).str, w) else (w, (LPeer.ip r).str)
+
+/-- the entries of a diff named by workload `w` and range `r` -/
+def entriesAt (l : List DEntry) (b : Bool) (w : String) (r : Iv) : List DEntry :=
+  l.filter fun e => e.src == (namesIP b w r).1 && e.dst == (namesIP b w r).2
+
+theorem reportWF_noSemi_src {R : List P2P} (h : ReportWF R) : ∀ p ∈ R, NoSemi p.src.str := by
+  intro p hp
+  cases hs : p.src with
+  | wl n pod => exact (h.names p hp n pod (Or.inl hs)).1
+  | ip r => exact noSemi_ipRange r
+
+theorem classify_moved (peers1 peers2 : List String) (b : Bool) {w : String} {a : Int} (r : Iv)
+    {o1 o2 : Option P2P} (h1 : ∀ x, o1 = some x → matchIP b w a x = true)
+    (h2 : ∀ x, o2 = some x → matchIP b w a x = true) :
+    classify peers1 peers2 (pkey (namesIP b w r).1 (namesIP b w r).2,
+        ⟨o1.map (mkIP b r), o2.map (mkIP b r)⟩) =
+      expected (namesIP b w r).1 (namesIP b w r).2 o1 o2 peers1 peers2 := by
+  have hmoved : ∀ x, matchIP b w a x = true →
+      (mkIP b r x).src.str = (namesIP b w r).1 ∧ (mkIP b r x).dst.str = (namesIP b w r).2 ∧
+      (mkIP b r x).connStr = x.connStr ∧ (mkIP b r x).all = x.all ∧ (mkIP b r x).ports = x.ports ∧
+      (∀ names, isWorkloadAbsent (mkIP b r x).src names = isWorkloadAbsent x.src names) ∧
+      (∀ names, isWorkloadAbsent (mkIP b r x).dst names = isWorkloadAbsent x.dst names) := by
+    intro x hx
+    obtain ⟨ho, r0, hr0, _⟩ := matchIP_iff.mp hx
+    cases b
+    · have hd : x.dst = .ip r0 := hr0
+      have hs : x.src.str = w := ho
+      refine ⟨hs, rfl, rfl, rfl, rfl, fun _ => rfl, fun names => ?_⟩
+      rw [hd]; rfl
+    · have hd : x.src = .ip r0 := hr0
+      have hs : x.dst.str = w := ho
+      refine ⟨rfl, hs, rfl, rfl, rfl, fun names => ?_, fun _ => rfl⟩
+      rw [hd]; rfl
+  cases o1 with
+  | none =>
+    cases o2 with
+    | none => rfl
+    | some y =>
+      obtain ⟨e1, e2, e3, _, _, e6, e7⟩ := hmoved y (h2 y rfl)
+      simp [classify, expected, e1, e2, e3, e6, e7]
+  | some x =>
+    obtain ⟨e1, e2, e3, e4, e5, e6, e7⟩ := hmoved x (h1 x rfl)
+    cases o2 with
+    | none => simp [classify, expected, e1, e2, e3, e6, e7]
+    | some y =>
+      obtain ⟨_, _, f3, f4, f5, _, _⟩ := hmoved y (h2 y rfl)
+      simp only [classify, expected, Option.map_some, e1, e2, e3, e4, e5, f3, f4, f5,
+        Option.some.injEq]
+      congr 1
+      by_cases hab : x.all = y.all ∧ x.ports = y.ports
+      · simp [hab.1, hab.2]
+      · rw [if_neg hab]
+        have : (x.all == y.all && x.ports == y.ports) = false := by
+          rw [Bool.eq_false_iff]
+          simpa using hab
+        simp [this]
+
+/-- **Workload–address points.** `R1`, `R2` well-formed reports whose connection strings determine
+the connections; `w` a workload name, `a` an address; `b`: the address is the source. With
+`o1`, `o2` what the reports hold for the point (`lookupIP`: the entry with `w` at one end and an
+IP range containing `a` at the other):
+
+* if both are none, the diff has no entry named by `w` and a valid range containing `a`;
+* otherwise there is a valid range `r` containing `a` such that the entries of the diff named by
+  `w` and `r` are exactly the specified entry (`expected`: type, the two connection strings,
+  new/lost flags), and no entry is named by `w` and another valid range containing `a`; `r` is
+  the maximal range around `a` on which the two reports hold the same pair of connection
+  strings as at `a` (`strsAt`). -/
+theorem diff_pointwise_ip {R1 R2 : List P2P} (peers1 peers2 : List String) (h1 : ReportWF R1)
+    (h2 : ReportWF R2) (hcs1 : ConnStrInj R1) (hcs2 : ConnStrInj R2) (b : Bool) {w : String}
+    (hwns : NoSemi w) (hwip : NotIP w) (a : Int) :
+    (lookupIP b R1 w a = none → lookupIP b R2 w a = none → ∀ r, ValidR r → r.mem a →
+      entriesAt (diffReports R1 R2 peers1 peers2) b w r = []) ∧
+    (((lookupIP b R1 w a).isSome ∨ (lookupIP b R2 w a).isSome) → ∃ r, ValidR r ∧ r.mem a ∧
+      entriesAt (diffReports R1 R2 peers1 peers2) b w r =
+        (expected (namesIP b w r).1 (namesIP b w r).2 (lookupIP b R1 w a) (lookupIP b R2 w a)
+          peers1 peers2).toList ∧
+      (∀ r', ValidR r' → r'.mem a → r' ≠ r →
+        entriesAt (diffReports R1 R2 peers1 peers2) b w r' = []) ∧
+      (∀ x, r.mem x → strsAt b R1 R2 w x = strsAt b R1 R2 w a) ∧
+      strsAt b R1 R2 w (r.lo - 1) ≠ strsAt b R1 R2 w a ∧
+      strsAt b R1 R2 w (r.hi + 1) ≠ strsAt b R1 R2 w a) := by
+  have hfilter : ∀ r, entriesAt (diffReports R1 R2 peers1 peers2) b w r =
+      ((get (mergeIPblocks (refMap R1 R2)) (dkey b w r)).bind fun p => classify peers1 peers2
+          (pkey (namesIP b w r).1 (namesIP b w r).2, p)).toList := by
+    intro r
+    have hs : NoSemi (namesIP b w r).1 := by
+      cases b
+      · exact hwns
+      · exact noSemi_ipRange r
+    have hk : pkey (namesIP b w r).1 (namesIP b w r).2 = dkey b w r := by cases b <;> rfl
+    unfold entriesAt diffReports refMap
+    rw [← hk]
+    exact diffLists_filter_key peers1 peers2 _ (noSemi_refine (reportWF_noSemi_src h1))
+      (noSemi_refine (reportWF_noSemi_src h2)) hs
+  obtain ⟨hnone, hsome⟩ := point_ip h1 h2 hcs1 hcs2 b hwns hwip a
+  constructor
+  · intro ho1 ho2 r hv hra
+    rw [hfilter, hnone ho1 ho2 r hv hra]
+    rfl
+  · intro hs
+    obtain ⟨r, hv, hra, hget, huniq, hconst, hlo, hhi⟩ := hsome hs
+    refine ⟨r, hv, hra, ?_, ?_, hconst, hlo, hhi⟩
+    · rw [hfilter, hget, Option.bind_some]
+      rw [classify_moved peers1 peers2 b r (w := w) (a := a) (o1 := lookupIP b R1 w a)
+        (o2 := lookupIP b R2 w a) (fun x hx => List.find?_some hx)
+        (fun x hx => List.find?_some hx)]
+    · intro r' hv' hra' hne
+      rw [hfilter]
+      cases hg : get (mergeIPblocks (refMap R1 R2)) (dkey b w r') with
+      | none => rfl
+      | some p => exact absurd (huniq r' hv' hra' (by rw [hg]; rfl)) hne
+
+/-- **no other entries**: every entry of the diff is the entry of a point — its names are two
+workload names, or a workload name and a valid range (in one of the two directions) -/
+theorem diff_entries_shape {R1 R2 : List P2P} (peers1 peers2 : List String) (h1 : ReportWF R1)
+    (h2 : ReportWF R2) : ∀ e ∈ diffReports R1 R2 peers1 peers2,
+      (NoSemi e.src ∧ NotIP e.src ∧ NotIP e.dst) ∨
+      (∃ b w r, NoSemi w ∧ NotIP w ∧ ValidR r ∧ e.src = (namesIP b w r).1 ∧ e.dst = (namesIP b w r).2) := by
+  intro e he
+  have hmap := mapOK_refMap h1 h2
+  have hseg := segOK_disjointBlocks h1 h2
+  have hnd := hmap.nodup
+  have hgood : AllE (Good fun a => NoSemi a.src.str) (refMap R1 R2) :=
+    good_diffMap (noSemi_refine (reportWF_noSemi_src h1)) (noSemi_refine (reportWF_noSemi_src h2))
+  have hgood' := good_mergeIPblocks hnd hgood (fun x b r hx => by
+    cases b
+    · exact hx
+    · exact noSemi_ipRange r)
+  have he' : e ∈ (mergeIPblocks (refMap R1 R2)).filterMap (classify peers1 peers2) := he
+  rw [List.mem_filterMap] at he'
+  obtain ⟨⟨k, p⟩, hkp, hc⟩ := he'
+  have hg := hgood' k p ((mem_iff_get (nodup_mergeIPblocks hnd)).mp hkp)
+  obtain ⟨a', ha', e1, e2⟩ := classify_some hc
+  have hka : a'.key = k ∧ NoSemi a'.src.str := by
+    rcases ha' with ha' | ha'
+    · exact hg.1 a' ha'
+    · exact hg.2 a' ha'
+  rcases mm_keys_shape hmap hseg k (List.mem_map.mpr ⟨_, hkp, rfl⟩) with
+    ⟨s, d, hk, hs, hsip, hdip⟩ | ⟨b, w, r, hk, hns, hnip, hv⟩
+  · left
+    rw [← hka.1, key_eq] at hk
+    obtain ⟨f1, f2⟩ := pkey_inj hka.2 hs hk
+    rw [e1, e2, f1, f2]
+    exact ⟨hs, hsip, hdip⟩
+  · right
+    refine ⟨b, w, r, hns, hnip, hv, ?_⟩
+    have hk' : dkey b w r = pkey (namesIP b w r).1 (namesIP b w r).2 := by cases b <;> rfl
+    have hs : NoSemi (namesIP b w r).1 := by
+      cases b
+      · exact hns
+      · exact noSemi_ipRange r
+    rw [← hka.1, key_eq, hk'] at hk
+    obtain ⟨f1, f2⟩ := pkey_inj hka.2 hs hk
+    rw [e1, e2, f1, f2]
+    exact ⟨rfl, rfl⟩
+
+/-! ## F. swapping the two reports -/
+
+/-- the entry with the two sides exchanged: `added` ↔ `removed`, the connection strings swapped -/
+def swapEntry (e : DEntry) : DEntry :=
+  { e with typ := if e.typ = "added" then "removed" else if e.typ = "removed" then "added" else e.typ,
+           c1 := e.c2, c2 := e.c1 }
+
+theorem expected_swap (s d : String) (o1 o2 : Option P2P) (peers1 peers2 : List String) :
+    expected s d o2 o1 peers2 peers1 = (expected s d o1 o2 peers1 peers2).map swapEntry := by
+  cases o1 with
+  | none =>
+    cases o2 with
+    | none => rfl
+    | some y => simp [expected, swapEntry]
+  | some x =>
+    cases o2 with
+    | none => simp [expected, swapEntry]
+    | some y =>
+      simp only [expected, swapEntry, Option.map_some, Option.some.injEq]
+      by_cases hab : x.all = y.all ∧ x.ports = y.ports
+      · have hba : y.all = x.all ∧ y.ports = x.ports := ⟨hab.1.symm, hab.2.symm⟩
+        rw [if_pos hab, if_pos hba]
+        simp
+      · have hba : ¬ (y.all = x.all ∧ y.ports = x.ports) := fun h => hab ⟨h.1.symm, h.2.symm⟩
+        rw [if_neg hab, if_neg hba]
+        simp
+
+/-- **swap, workload–workload points**: the entries of `diff(R2, R1)` for a pair of workload names
+are those of `diff(R1, R2)` with the sides exchanged -/
+theorem diff_swap_wl {R1 R2 : List P2P} (peers1 peers2 : List String) {s d : String}
+    (hnd1 : NamesNodup R1) (hnd2 : NamesNodup R2)
+    (hns1 : ∀ p ∈ R1, NoSemi p.src.str) (hns2 : ∀ p ∈ R2, NoSemi p.src.str)
+    (hs : NoSemi s) (hsip : NotIP s) (hdip : NotIP d) :
+    (diffReports R2 R1 peers2 peers1).filter (fun e => e.src == s && e.dst == d) =
+      ((diffReports R1 R2 peers1 peers2).filter (fun e => e.src == s && e.dst == d)).map swapEntry := by
+  rw [diff_pointwise_wl peers2 peers1 hnd2 hnd1 hns2 hns1 hs hsip hdip,
+    diff_pointwise_wl peers1 peers2 hnd1 hnd2 hns1 hns2 hs hsip hdip, expected_swap]
+  cases expected s d (lookup R1 s d) (lookup R2 s d) peers1 peers2 <;> rfl
+
+theorem strsAt_swap (b : Bool) (R1 R2 : List P2P) (w : String) (x : Int) :
+    strsAt b R2 R1 w x = ((strsAt b R1 R2 w x).2, (strsAt b R1 R2 w x).1) := rfl
+
+/-- two ranges around `a`, each a maximal run of a property, are equal -/
+theorem maximal_run_unique {P : Int → Prop} {a : Int} {r r' : Iv} (ha : r.mem a) (ha' : r'.mem a)
+    (h : ∀ x, r.mem x → P x) (hlo : ¬ P (r.lo - 1)) (hhi : ¬ P (r.hi + 1))
+    (h' : ∀ x, r'.mem x → P x) (hlo' : ¬ P (r'.lo - 1)) (hhi' : ¬ P (r'.hi + 1)) : r = r' := by
+  unfold Iv.mem at *
+  have e1 : r.lo = r'.lo := by
+    rcases Int.lt_trichotomy r.lo r'.lo with hlt | heq | hgt
+    · exact absurd (h (r'.lo - 1) (by omega)) hlo'
+    · exact heq
+    · exact absurd (h' (r.lo - 1) (by omega)) hlo
+  have e2 : r.hi = r'.hi := by
+    rcases Int.lt_trichotomy r.hi r'.hi with hlt | heq | hgt
+    · exact absurd (h' (r.hi + 1) (by omega)) hhi
+    · exact heq
+    · exact absurd (h (r'.hi + 1) (by omega)) hhi'
+  cases r; cases r'; simp_all
+
+/-- **swap, workload–address points**: for every valid range `r` containing the address, the
+entries of `diff(R2, R1)` named by `w` and `r` are those of `diff(R1, R2)` with the sides
+exchanged -/
+theorem diff_swap_ip {R1 R2 : List P2P} (peers1 peers2 : List String) (h1 : ReportWF R1)
+    (h2 : ReportWF R2) (hcs1 : ConnStrInj R1) (hcs2 : ConnStrInj R2) (b : Bool) {w : String}
+    (hwns : NoSemi w) (hwip : NotIP w) (a : Int) (r : Iv) (hv : ValidR r) (hra : r.mem a) :
+    entriesAt (diffReports R2 R1 peers2 peers1) b w r =
+      (entriesAt (diffReports R1 R2 peers1 peers2) b w r).map swapEntry := by
+  obtain ⟨hn12, hs12⟩ := diff_pointwise_ip peers1 peers2 h1 h2 hcs1 hcs2 b hwns hwip a
+  obtain ⟨hn21, hs21⟩ := diff_pointwise_ip peers2 peers1 h2 h1 hcs2 hcs1 b hwns hwip a
+  by_cases hsome : (lookupIP b R1 w a).isSome ∨ (lookupIP b R2 w a).isSome
+  · obtain ⟨r1, _, hra1, he1, ho1, hc1, hlo1, hhi1⟩ := hs12 hsome
+    obtain ⟨r2, _, hra2, he2, ho2, hc2, hlo2, hhi2⟩ := hs21 (Or.symm hsome)
+    have hsw : ∀ x y, strsAt b R2 R1 w x = strsAt b R2 R1 w y ↔
+        strsAt b R1 R2 w x = strsAt b R1 R2 w y := by
+      intro x y
+      constructor
+      · intro h
+        have e1 := congrArg Prod.fst h
+        have e2 := congrArg Prod.snd h
+        exact Prod.ext e2 e1
+      · intro h
+        have e1 := congrArg Prod.fst h
+        have e2 := congrArg Prod.snd h
+        exact Prod.ext e2 e1
+    have hrr : r1 = r2 :=
+      maximal_run_unique (P := fun x => strsAt b R1 R2 w x = strsAt b R1 R2 w a) hra1 hra2 hc1 hlo1
+        hhi1 (fun x hx => (hsw x a).mp (hc2 x hx)) (fun h => hlo2 ((hsw _ a).mpr h))
+        (fun h => hhi2 ((hsw _ a).mpr h))
+    subst hrr
+    by_cases hr : r = r1
+    · subst hr
+      rw [he1, he2, expected_swap]
+      cases expected (namesIP b w r).1 (namesIP b w r).2 (lookupIP b R1 w a) (lookupIP b R2 w a)
+        peers1 peers2 <;> rfl
+    · rw [ho1 r hv hra hr, ho2 r hv hra hr]; rfl
+  · have ho1 : lookupIP b R1 w a = none := by
+      cases h : lookupIP b R1 w a with
+      | none => rfl
+      | some x => exact absurd (Or.inl (by rw [h]; rfl)) hsome
+    have ho2 : lookupIP b R2 w a = none := by
+      cases h : lookupIP b R2 w a with
+      | none => rfl
+      | some x => exact absurd (Or.inr (by rw [h]; rfl)) hsome
+    rw [hn12 ho1 ho2 r hv hra, hn21 ho2 ho1 r hv hra]; rfl
+
+/-- the list-level form of the swap property (the two diffs are permutations of each other up to
+`swapEntry`); NOT proved here — the pointwise theorems `diff_swap_wl`, `diff_swap_ip` together with
+`diff_entries_shape` say the same thing point by point -/
+def diff_swap_perm_statement : Prop :=
+  ∀ (R1 R2 : List P2P) (peers1 peers2 : List String), ReportWF R1 → ReportWF R2 → ConnStrInj R1 →
+    ConnStrInj R2 →
+    (diffReports R2 R1 peers2 peers1).Perm ((diffReports R1 R2 peers1 peers2).map swapEntry)
+
+/-! ## Examples -/
+
+def exPodA : Pod := { ns := "default", name := "a", labels := [], ports := [] }
+def exPodB : Pod := { ns := "default", name := "b", labels := [], ports := [] }
+def exPodC : Pod := { ns := "default", name := "c", labels := [], ports := [] }
+def exA : LPeer := .wl "default/a[Pod]" exPodA
+def exB : LPeer := .wl "default/b[Pod]" exPodB
+def exC : LPeer := .wl "default/c[Pod]" exPodC
+
+/-- two reports without IP peers -/
+def exR1 : List P2P := [⟨exA, exB, false, [(.TCP, [⟨80, 80⟩])]⟩, ⟨exA, exC, true, []⟩]
+def exR2 : List P2P := [⟨exA, exB, false, [(.TCP, [⟨80, 80⟩, ⟨443, 443⟩])]⟩, ⟨exB, exC, true, []⟩]
+def exPeers1 : List String := ["default/a[Pod]", "default/b[Pod]", "default/c[Pod]"]
+def exPeers2 : List String := ["default/a[Pod]", "default/b[Pod]"]
+
+theorem ex_dis_nil : disjointBlocks ([] : List Iv) [] = [] := by simp [disjointBlocks]
+
+example : diffReports exR1 exR2 exPeers1 exPeers2 =
+    [⟨"changed", "default/a[Pod]", "default/b[Pod]", "TCP 80", "TCP 80,443", false, false⟩,
+     ⟨"removed", "default/a[Pod]", "default/c[Pod]", "All Connections", "No Connections", false, true⟩,
+     ⟨"added", "default/b[Pod]", "default/c[Pod]", "No Connections", "All Connections", false, false⟩] := by
+  unfold diffReports
+  rw [show ipBlocksOf exR1 = [] from by decide, show ipBlocksOf exR2 = [] from by decide, ex_dis_nil]
+  decide
+
+/-- the specification at the three points -/
+example : expected "default/a[Pod]" "default/b[Pod]" (lookup exR1 "default/a[Pod]" "default/b[Pod]")
+    (lookup exR2 "default/a[Pod]" "default/b[Pod]") exPeers1 exPeers2 =
+    some ⟨"changed", "default/a[Pod]", "default/b[Pod]", "TCP 80", "TCP 80,443", false, false⟩ := by decide
+
+example : expected "default/a[Pod]" "default/c[Pod]" (lookup exR1 "default/a[Pod]" "default/c[Pod]")
+    (lookup exR2 "default/a[Pod]" "default/c[Pod]") exPeers1 exPeers2 =
+    some ⟨"removed", "default/a[Pod]", "default/c[Pod]", "All Connections", "No Connections", false, true⟩ := by
+  decide
+
+example : expected "default/c[Pod]" "default/a[Pod]" (lookup exR1 "default/c[Pod]" "default/a[Pod]")
+    (lookup exR2 "default/c[Pod]" "default/a[Pod]") exPeers1 exPeers2 = none := by decide
+
+/-- the hypotheses of `diff_pointwise_wl` hold of the example -/
+theorem ex_notIP_a : NotIP "default/a[Pod]" := fun r => by
+  rw [show "default/a[Pod]" = workloadName exPodA from by decide]
+  exact Structure.workloadName_ne_ipRange _ _
+
+theorem ex_notIP_b : NotIP "default/b[Pod]" := fun r => by
+  rw [show "default/b[Pod]" = workloadName exPodB from by decide]
+  exact Structure.workloadName_ne_ipRange _ _
+
+theorem ex_noSemi_a : NoSemi "default/a[Pod]" := by unfold NoSemi; decide
+
+example : (diffReports exR1 exR2 exPeers1 exPeers2).filter
+      (fun e => e.src == "default/a[Pod]" && e.dst == "default/b[Pod]") =
+    [⟨"changed", "default/a[Pod]", "default/b[Pod]", "TCP 80", "TCP 80,443", false, false⟩] := by
+  rw [diff_pointwise_wl exPeers1 exPeers2 (by unfold NamesNodup; decide) (by unfold NamesNodup; decide)
+    (by unfold NoSemi; decide) (by unfold NoSemi; decide) ex_noSemi_a ex_notIP_a ex_notIP_b]
+  decide
+
+/-- two reports with IP peers: the whole address space in the first, 10.0.0.0/8 carved out in the second -/
+def exR3 : List P2P := [⟨exA, .ip ⟨0, 4294967295⟩, true, []⟩]
+def exR4 : List P2P :=
+  [⟨exA, .ip ⟨0, 167772159⟩, true, []⟩, ⟨exA, .ip ⟨167772160, 184549375⟩, false, [(.TCP, [⟨80, 80⟩])]⟩,
+   ⟨exA, .ip ⟨184549376, 4294967295⟩, true, []⟩]
+
+theorem ex_dis : disOf exR3 exR4 =
+    [⟨0, 167772159⟩, ⟨167772160, 184549375⟩, ⟨184549376, 4294967295⟩] := by
+  have h3 : ipBlocksOf exR3 = [⟨0, 4294967295⟩] := by decide
+  have h4 : ipBlocksOf exR4 =
+      [⟨0, 167772159⟩, ⟨167772160, 184549375⟩, ⟨184549376, 4294967295⟩] := by decide
+  unfold disOf disjointBlocks
+  rw [h3, h4]
+  simp only [List.cons_append, List.nil_append, List.flatMap_cons, List.flatMap_nil, List.append_nil]
+  have hs : ([0, 4294967295 + 1, 0, 167772159 + 1, 167772160, 184549375 + 1, 184549376,
+      4294967295 + 1] : List Int).mergeSort (fun x1 x2 => decide (x1 ≤ x2)) =
+      [0, 0, 167772160, 167772160, 184549376, 184549376, 4294967296, 4294967296] := by
+    simp [List.mergeSort, List.MergeSort.Internal.splitInTwo]
+  rw [hs]
+  decide
+
+/-- the diff: the two unchanged parts are merged per group (two ranges, not adjacent), 10.0.0.0/8 changed -/
+theorem ex_diff34 : diffReports exR3 exR4 [] [] =
+    [⟨"unchanged", "default/a[Pod]", "0.0.0.0-9.255.255.255", "All Connections", "All Connections", false, false⟩,
+     ⟨"unchanged", "default/a[Pod]", "11.0.0.0-255.255.255.255", "All Connections", "All Connections", false, false⟩,
+     ⟨"changed", "default/a[Pod]", "10.0.0.0-10.255.255.255", "All Connections", "TCP 80", false, false⟩] := by
+  have := ex_dis
+  unfold disOf at this
+  unfold diffReports
+  rw [this]
+  decide
+
+theorem ex_wf_of_ends {R : List P2P} {blocks : List Iv} (hnd : NamesNodup R)
+    (hv : ∀ r ∈ blocks, ValidR r)
+    (hdisj : ∀ r ∈ blocks, ∀ r' ∈ blocks, ∀ x, r.mem x → r'.mem x → r = r')
+    (hends : ∀ p ∈ R, p.src = exA ∧ ∃ r ∈ blocks, p.dst = .ip r) : ReportWF R := by
+  refine ⟨hnd, ?_, ?_, ?_, ?_, ?_⟩
+  · intro p hp
+    obtain ⟨hs, _⟩ := hends p hp
+    rw [hs]; simp [exA, LPeer.isIP]
+  · intro p hp r hr
+    obtain ⟨hs, r', hr', hd⟩ := hends p hp
+    rw [hs, hd] at hr
+    rcases hr with hr | hr
+    · cases hr
+    · cases hr; exact hv _ hr'
+  · intro p hp q hq r r' hr hr' x hx hx'
+    obtain ⟨hs, r1, hr1, hd⟩ := hends p hp
+    obtain ⟨hs', r2, hr2, hd'⟩ := hends q hq
+    rw [hs, hd] at hr
+    rw [hs', hd'] at hr'
+    have e1 : r = r1 := by rcases hr with hr | hr <;> cases hr; rfl
+    have e2 : r' = r2 := by rcases hr' with hr' | hr' <;> cases hr'; rfl
+    subst e1; subst e2
+    exact hdisj r hr1 r' hr2 x hx hx'
+  · intro p hp n pod hn
+    obtain ⟨hs, r', _, hd⟩ := hends p hp
+    rw [hs, hd] at hn
+    rcases hn with hn | hn
+    · cases hn; exact ⟨ex_noSemi_a, ex_notIP_a⟩
+    · cases hn
+  · intro p hp q hq n pod pod' hn hn'
+    obtain ⟨hs, r1, _, hd⟩ := hends p hp
+    obtain ⟨hs', r2, _, hd'⟩ := hends q hq
+    rw [hs, hd] at hn
+    rw [hs', hd'] at hn'
+    rcases hn with hn | hn <;> rcases hn' with hn' | hn' <;> cases hn <;> cases hn'
+    rfl
+
+theorem ex_wf4 : ReportWF exR4 := by
+  refine ex_wf_of_ends (blocks := [⟨0, 167772159⟩, ⟨167772160, 184549375⟩, ⟨184549376, 4294967295⟩])
+    (by unfold NamesNodup; decide) ?_ ?_ ?_
+  · intro r hr
+    simp only [List.mem_cons, List.not_mem_nil, or_false] at hr
+    unfold ValidR ipMax
+    rcases hr with rfl | rfl | rfl <;> simp
+  · intro r hr r' hr' x hx hx'
+    simp only [List.mem_cons, List.not_mem_nil, or_false] at hr hr'
+    unfold Iv.mem at hx hx'
+    rcases hr with rfl | rfl | rfl <;> rcases hr' with rfl | rfl | rfl <;>
+      first | rfl | (simp only at hx hx'; omega)
+  · intro p hp
+    simp only [exR4, List.mem_cons, List.not_mem_nil, or_false] at hp
+    rcases hp with rfl | rfl | rfl <;> simp
+
+theorem ex_wf3 : ReportWF exR3 := by
+  refine ex_wf_of_ends (blocks := [⟨0, 4294967295⟩]) (by unfold NamesNodup; decide) ?_ ?_ ?_
+  · intro r hr
+    simp only [List.mem_cons, List.not_mem_nil, or_false] at hr
+    subst hr
+    unfold ValidR ipMax; simp
+  · intro r hr r' hr' x _ _
+    simp only [List.mem_cons, List.not_mem_nil, or_false] at hr hr'
+    rw [hr, hr']
+  · intro p hp
+    simp only [exR3, List.mem_cons, List.not_mem_nil, or_false] at hp
+    subst hp; simp
+
+/-- the theorem at the point (workload a, address 10.1.2.3): one entry, `changed` -/
+example : ∃ r, ValidR r ∧ r.mem 167837955 ∧
+    entriesAt (diffReports exR3 exR4 [] []) false "default/a[Pod]" r =
+      [⟨"changed", "default/a[Pod]", (LPeer.ip r).str, "All Connections", "TCP 80", false, false⟩] := by
+  obtain ⟨_, hsome⟩ := diff_pointwise_ip [] [] ex_wf3 ex_wf4 (by unfold ConnStrInj; decide)
+    (by unfold ConnStrInj; decide) false ex_noSemi_a ex_notIP_a 167837955
+  obtain ⟨r, hv, hra, he, _⟩ := hsome (Or.inl (by decide))
+  refine ⟨r, hv, hra, ?_⟩
+  rw [he]
+  rw [show lookupIP false exR3 "default/a[Pod]" 167837955 = some ⟨exA, .ip ⟨0, 4294967295⟩, true, []⟩
+    from by rfl]
+  rw [show lookupIP false exR4 "default/a[Pod]" 167837955 =
+    some ⟨exA, .ip ⟨167772160, 184549375⟩, false, [(.TCP, [⟨80, 80⟩])]⟩ from by rfl]
+  simp [expected, namesIP, P2P.connStr]
+  decide
+
+/-- `ConnStrInj` cannot be dropped: two different (non-canonical) views with the same string
+"All Connections" in the second report are merged into one group, whose first entry stands for
+both — the diff says `unchanged` at address 7 where the specification says `changed` -/
+def exR5 : List P2P := [⟨exA, .ip ⟨0, 9⟩, true, []⟩]
+def exR6 : List P2P := [⟨exA, .ip ⟨0, 4⟩, true, []⟩, ⟨exA, .ip ⟨5, 9⟩, true, [(.TCP, [])]⟩]
+
+example : ¬ ConnStrInj exR6 := by unfold ConnStrInj; decide
+
+example : diffReports exR5 exR6 [] [] =
+    [⟨"unchanged", "default/a[Pod]", "0.0.0.0-0.0.0.9", "All Connections", "All Connections", false, false⟩] := by
+  have hd : disjointBlocks (ipBlocksOf exR5) (ipBlocksOf exR6) = [⟨0, 4⟩, ⟨5, 9⟩] := by
+    have h5 : ipBlocksOf exR5 = [⟨0, 9⟩] := by decide
+    have h6 : ipBlocksOf exR6 = [⟨0, 4⟩, ⟨5, 9⟩] := by decide
+    unfold disjointBlocks
+    rw [h5, h6]
+    simp only [List.cons_append, List.nil_append, List.flatMap_cons, List.flatMap_nil, List.append_nil]
+    have hs : ([0, 9 + 1, 0, 4 + 1, 5, 9 + 1] : List Int).mergeSort (fun x1 x2 => decide (x1 ≤ x2)) =
+        [0, 0, 5, 5, 10, 10] := by
+      simp [List.mergeSort, List.MergeSort.Internal.splitInTwo]
+    rw [hs]
+    decide
+  unfold diffReports
+  rw [hd]
+  decide
+
+example : expected "default/a[Pod]" "0.0.0.0-0.0.0.9" (lookupIP false exR5 "default/a[Pod]" 7)
+    (lookupIP false exR6 "default/a[Pod]" 7) [] [] =
+    some ⟨"changed", "default/a[Pod]", "0.0.0.0-0.0.0.9", "All Connections", "All Connections", false, false⟩ := by
+  decide
 
 end Netpol.Properties.C04
